@@ -143,7 +143,76 @@ Fixpoint file_phase (fuel : nat) (c : jcfg) (w : world) (lowest : N) (fevs : lis
       end
   end.
 
+(* Final blocks only (fix "each final block once"): finalBlocksFilterHandler is stateful.  It remembers the number of
+   the last final block it forwarded and drops every Irreversible / new+irreversible event whose block number is at or
+   below it (after the switch from merged files to a live hub whose LIB is behind the files, the hub announces again,
+   as Irreversible, blocks the files already delivered).  A dropped event is not delivered, does not count for the
+   pauses, and is not seen by the stop-block handler, which sits inside the filter.
+   (delivered to the user, stop-block-reached, the filter's memory afterwards) *)
+Definition chain_fin (c : jcfg) (lastfin : option N) (e : event) : bool * bool * option N :=
+  if filter_pass c (estep e) then
+    if match lastfin with Some n => bnum (eblk e) <=? n | None => false end then (false, false, lastfin)
+    else (chain c e, Some (bnum (eblk e)))
+  else (false, false, lastfin).
+
+Fixpoint live_phase_fin (fuel : nat) (c : jcfg) (w : world) (lastfin : option N) (queue : list event) (count : N)
+         (ps : list (N * N)) (out : list event) : list event * jerr :=
+  match fuel with
+  | O => (out, JFuel)
+  | S f =>
+      match queue with
+      | e :: q =>
+          let '(deliver, stop, lastfin') := chain_fin c lastfin e in
+          if deliver then
+            let count' := count + 1 in
+            let '(ps', w', evs) := apply_pauses c count' ps w in
+            if stop then (out ++ [e], JStop)
+            else live_phase_fin f c w' lastfin' (q ++ evs) count' ps' (out ++ [e])
+          else if stop then (out, JStop)
+          else live_phase_fin f c w lastfin' q count ps out
+      | [] =>
+          match w_rest w with
+          | [] => (out, JNil)
+          | _ => let '(w', evs) := push_one c w in live_phase_fin f c w' lastfin evs count ps out
+          end
+      end
+  end.
+
+Fixpoint file_phase_fin (fuel : nat) (c : jcfg) (w : world) (lastfin : option N) (lowest : N) (fevs : list event)
+         (fend : jerr) (count : N) (ps : list (N * N)) (out : list event) : list event * jerr :=
+  match fevs with
+  | [] => (out, fend)
+  | e :: rest =>
+      let n := bnum (eblk e) in
+      let join : option (list event) :=
+        if (lowest <=? n) && matches_new (estep e) then
+          match (if j_mode c =? 2
+                 then match j_cursor c with Some cu => hub_through_cursor (h_f (w_hub w)) n cu | None => BErr end
+                 else blocks_from_num (h_f (w_hub w)) n) with
+          | BOk evs =>
+              let same := (j_mode c =? 2) || match evs with b0 :: _ => bid (eblk b0) =? bid (eblk e) | [] => false end in
+              if h_ready (w_hub w) && same then Some evs else None
+          | _ => None
+          end
+        else None in
+      match join with
+      | Some burst => live_phase_fin fuel c w lastfin burst count ps out
+      | None =>
+          let lowest' := if (lowest <=? n) && matches_new (estep e) then hub_lowest (w_hub w) else lowest in
+          let '(deliver, stop, lastfin') := chain_fin c lastfin e in
+          if deliver then
+            let count' := count + 1 in
+            let '(ps', w', _) := apply_pauses c count' ps w in
+            if stop then (out ++ [e], JStop)
+            else file_phase_fin fuel c w' lastfin' lowest' rest fend count' ps' (out ++ [e])
+          else if stop then (out, JStop)
+          else file_phase_fin fuel c w lastfin' lowest' rest fend count ps out
+      end
+  end.
+
 (* Stream.Run: merged = canonical blocks present in merged files *)
+(* the default and custom step filters are stateless (live_phase, file_phase); final-blocks-only runs the
+   stateful phases from an empty memory *)
 Definition stream_run (c : jcfg) (w : world) (ps : list (N * N)) (merged_end : N) (merged forked : list block) : list event * jerr :=
   let head := match hub_head (w_hub w) with Some (r, _) => rn r | None => 0 end in
   let start := abs_start (j_first c) (j_start c) head in
@@ -153,7 +222,8 @@ Definition stream_run (c : jcfg) (w : world) (ps : list (N * N)) (merged_end : N
   then ([], JInvalidArg) else
   let fuel := (40 * (length (w_rest w) + length merged + 20))%nat in
   match live_try c (w_hub w) start with
-  | BOk burst => live_phase fuel c w burst 0 ps []
+  | BOk burst => if j_filter c =? 1 then live_phase_fin fuel c w None burst 0 ps []
+                 else live_phase fuel c w burst 0 ps []
   | BFuel | BPanic => ([], JFuel)
   | BErr =>
       let stop_for_files := if j_stop c =? 0 then 1000000000000 else j_stop c in
@@ -172,5 +242,6 @@ Definition stream_run (c : jcfg) (w : world) (ps : list (N * N)) (merged_end : N
                   | RsResolveErr => JInvalidArg   (* Stream.Run maps ErrResolveCursor to invalid argument *)
                   | RsNotImplemented => JOther
                   | RsFuel => JFuel end in
-      file_phase fuel c w (hub_lowest (w_hub w)) fevs fend 0 ps []
+      if j_filter c =? 1 then file_phase_fin fuel c w None (hub_lowest (w_hub w)) fevs fend 0 ps []
+      else file_phase fuel c w (hub_lowest (w_hub w)) fevs fend 0 ps []
   end.
